@@ -699,9 +699,9 @@ fn explore(ctx: &Ctx, kinds: &[Kind], depth: usize, max_handles: usize) {
 /// and not, around the 2 MiB huge-page size; all drop orders of the owners of one region.
 fn size_sweep(ctx: &Ctx, kinds: &[Kind], thorough: bool) {
     const M: usize = 1 << 20;
-    let mut sizes = vec![1usize, 4095, 4096, 4097, M + 1, 2 * M - 1, 2 * M, 2 * M + 1, 2 * M + 0x800, 3 * M + 0x800, 4 * M, 6 * M + 4095, 32 * M + 1];
+    let mut sizes = vec![1usize, 4095, 4096, 4097, M + 1, 2 * M - 1, 2 * M, 2 * M + 1, 2 * M + 0x800, 3 * M + 0x800, 4 * M, 6 * M + 4095, 32 * M + 1, 1024 * M];
     if thorough {
-        sizes.extend([2 * M - 4096, 2 * M + 4096, 4 * M - 1, 4 * M + 1, 8 * M + 0x1800, 64 * M + 0x800, 1024 * M + 1]);
+        sizes.extend([2 * M - 4096, 2 * M + 4096, 4 * M - 1, 4 * M + 1, 8 * M + 0x1800, 64 * M + 0x800, 1024 * M + 1, 1024 * M - 4096, 2048 * M, 3072 * M, 4096 * M]);
     }
     // owners: region handle (h0), map (h1), clone (h2), atomic (h3), snapshot (h4), removed handle
     let prefix = |k: Kind| vec![Op::Create(k), Op::Build(vec![0]), Op::CloneMap(1), Op::MakeAtomic(1), Op::Snapshot(3)];
@@ -1102,7 +1102,7 @@ fn builder_sweep(ctx: &Ctx, thorough: bool) {
 
 pub fn run(tier: Tier, replay: Option<String>) -> i32 {
     let ctx = crate::new_ctx("C12", tier, "model_checking", &replay);
-    ctx.set_rule("E1: BFS over all histories up to the depth bound of {create region (owned anonymous / owned file-backed - through from_range, the builder with the hugetlbfs hint, or with the hint set afterwards, rotating with the slot - / external raw / external raw file-backed; Xen build: UNIX, grant in advance, foreign on the emulated devices), build a map from any subset of region handles, insert, remove (yields a removed-region handle), clone map, wrap in GuestMemoryAtomic, snapshot, replace the published map, clone handle, drop ANY live handle (every other drop happens while a caught panic unwinds)}; state = owner graph (which handle keeps which region alive), each frontier state is rebuilt by replaying its history on the real objects with mmap/munmap (and the grant ioctls) recorded through link-time interposition. After every step: a region with an owner has not been passed to munmap and is readable; a region whose last owner went away was munmap'ed exactly once with exactly its mapped length (grant: plus exactly one matching unmap ioctl); external mappings are never unmapped; at the end of every history all remaining handles are dropped and the same invariant is checked. Address-space accounting: the whole mapping log is replayed after every step; every page the library mapped while creating a region is attributed to it, all pages of a region with an owner must still be mapped, and none of the pages attributed to a region without owners may remain. Size sweep: the life cycle {create, build, clone, atomic, snapshot, optional remove} followed by the drop orders of the five owners for owned regions of 1 byte .. 32 MiB+1 (thorough: .. 1 GiB+1; page multiples and not, around the 2 MiB huge-page size), same invariants. Replace histories: create two regions, build, remove, wrap, snapshot, replace the published map by the one without the second region, then drop its four other owners in all 24 orders while the replaceable memory stays alive. Failed creations (std build): anonymous and file-backed regions and a two-region map created through four routes with exactly one mmap call failing, or one query of the file length failing or reporting an empty file: nothing the library mapped on the way may remain. Builder sweep (std build): MmapRegionBuilder::build for 5 protections x 16 (thorough 25) flag words (private/shared, anonymous or not, NORESERVE, LOCKED, POPULATE, FIXED, HUGETLB, STACK, GROWSDOWN, ...) x 4 (6) sizes x {no file, file at offset 0, file at a page offset}: while a built region is alive exactly its pages are mapped, after its drop or after a refused build nothing remains; every mlock/madvise/mprotect call the library makes on the way (interposed too) is failed once.");
+    ctx.set_rule("E1: BFS over all histories up to the depth bound of {create region (owned anonymous / owned file-backed - through from_range, the builder with the hugetlbfs hint, or with the hint set afterwards, rotating with the slot - / external raw / external raw file-backed; Xen build: UNIX, grant in advance, foreign on the emulated devices), build a map from any subset of region handles, insert, remove (yields a removed-region handle), clone map, wrap in GuestMemoryAtomic, snapshot, replace the published map, clone handle, drop ANY live handle (every other drop happens while a caught panic unwinds)}; state = owner graph (which handle keeps which region alive), each frontier state is rebuilt by replaying its history on the real objects with mmap/munmap (and the grant ioctls) recorded through link-time interposition. After every step: a region with an owner has not been passed to munmap and is readable; a region whose last owner went away was munmap'ed exactly once with exactly its mapped length (grant: plus exactly one matching unmap ioctl); external mappings are never unmapped; at the end of every history all remaining handles are dropped and the same invariant is checked. Address-space accounting: the whole mapping log is replayed after every step; every page the library mapped while creating a region is attributed to it, all pages of a region with an owner must still be mapped, and none of the pages attributed to a region without owners may remain. Size sweep: the life cycle {create, build, clone, atomic, snapshot, optional remove} followed by the drop orders of the five owners for owned regions of 1 byte .. 1 GiB (thorough: .. 4 GiB; page multiples and not, around the 2 MiB huge-page size, exact multiples of 1 GiB), same invariants. Replace histories: create two regions, build, remove, wrap, snapshot, replace the published map by the one without the second region, then drop its four other owners in all 24 orders while the replaceable memory stays alive. Failed creations (std build): anonymous and file-backed regions and a two-region map created through four routes with exactly one mmap call failing, or one query of the file length failing or reporting an empty file: nothing the library mapped on the way may remain. Builder sweep (std build): MmapRegionBuilder::build for 5 protections x 16 (thorough 25) flag words (private/shared, anonymous or not, NORESERVE, LOCKED, POPULATE, FIXED, HUGETLB, STACK, GROWSDOWN, ...) x 4 (6) sizes x {no file, file at offset 0, file at a page offset}: while a built region is alive exactly its pages are mapped, after its drop or after a refused build nothing remains; every mlock/madvise/mprotect call the library makes on the way (interposed too) is failed once.");
     ctx.assume("the 'programs' half of the property (accessors cannot outlive their parent) is decided by the compile-fail grid in tools/cfail.py and rests on Rust's borrow checker");
     if ctx.replay_of.is_some() {
         println!("replay: deterministic search; re-running it");
